@@ -177,8 +177,8 @@ Definition nomix (r : dref) (ps : list piece) : Prop :=
    as one of the tokens equal to it — in particular not inside a longer token, not inside a
    substituted value, and not across a boundary. *)
 Definition separated (refs : list dref) (ps : list piece) : Prop :=
-  (forall r, In r refs -> nomix r ps) /\
-  (forall qs r, partial refs ps qs -> In r refs -> cond r qs).
+  (forall r, In r refs -> nomix r ps) /\ NoDup refs /\
+  (forall D qs r, incl D refs -> ~ In r D -> In r refs -> partial D ps qs -> cond r qs).
 
 Definition unambiguous (refs : list dref) (ps : list piece) : Prop :=
   forall r r' t, In r refs -> In r' refs -> In (Tok t) ps ->
@@ -186,16 +186,23 @@ Definition unambiguous (refs : list dref) (ps : list piece) : Prop :=
 
 (* sequential string algorithm = sequential piece algorithm *)
 Lemma seq_pieces refs ps :
-  (forall qs r, partial refs ps qs -> In r refs -> cond r qs) ->
-  forall todo qs, (forall r, In r todo -> In r refs) -> partial refs ps qs ->
+  (forall D qs r, incl D refs -> ~ In r D -> In r refs -> partial D ps qs -> cond r qs) ->
+  forall todo done qs, incl todo refs -> incl done refs -> NoDup todo ->
+    (forall x, In x todo -> ~ In x done) -> partial done ps qs ->
   resolve_args todo (flatten qs) = flatten (fold_left pstep todo qs).
 Proof.
-  intros H todo. induction todo as [|r rs IH]; intros qs I P; [reflexivity|].
+  intros H todo. induction todo as [|r rs IH]; intros done qs It Id N Dj P; [reflexivity|].
   rewrite resolve_cons. cbn [fold_left].
-  rewrite (step_pstep r qs) by (apply H; [exact P|apply I; left; reflexivity]).
-  apply IH.
-  - intros x Hx. apply I. right. exact Hx.
-  - apply partial_pstep; [apply I; left; reflexivity|exact P].
+  rewrite (step_pstep r qs).
+  2:{ apply (H done); [exact Id|apply Dj; left; reflexivity|apply It; left; reflexivity|exact P]. }
+  inversion N as [|? ? Nr Nrs]; subst.
+  apply (IH (r :: done)).
+  - intros x Hx. apply It. right. exact Hx.
+  - intros x [<-|Hx]; [apply It; left; reflexivity|apply Id, Hx].
+  - exact Nrs.
+  - intros x Hx [<-|Hd]; [contradiction|]. apply (Dj x); [right; exact Hx|exact Hd].
+  - apply partial_pstep; [left; reflexivity|].
+    eapply partial_incl; [|exact P]. intros x Hx. right. exact Hx.
 Qed.
 
 Lemma has_tok_sub_mono s s' v ps : has_tok s (map (sub_tok s' v) ps) = true -> has_tok s ps = true.
@@ -262,43 +269,22 @@ Qed.
 
 Theorem exact refs ps : separated refs ps -> resolve_args refs (flatten ps) = spec refs ps.
 Proof.
-  intros [N H]. rewrite (seq_pieces refs ps H refs ps (fun r I => I) (partial_refl refs ps)).
+  intros [N [ND H]].
+  rewrite (seq_pieces refs ps H refs [] ps (incl_refl _) (incl_nil_l _) ND (fun x _ F => F) (partial_refl [] ps)).
   unfold spec. rewrite seq_is_parallel by exact N. reflexivity.
-Qed.
-
-(* a reference is reported unused exactly when none of its spellings is a token *)
-Definition no_token (ps : list piece) (r : dref) : bool :=
-  r_sub r && negb (has_tok (r_abs r) ps) && negb (has_tok (r_rel r) ps).
-
-Lemma seq_unused refs ps :
-  (forall qs r, partial refs ps qs -> In r refs -> cond r qs) ->
-  forall todo qs, (forall r, In r todo -> In r refs) -> partial refs ps qs ->
-  unused_refs todo (flatten qs) =
-  (fix go (todo : list dref) (qs : list piece) : list string :=
-     match todo with
-     | [] => []
-     | r :: rs => if no_token qs r then r_abs r :: go rs (pstep qs r) else go rs (pstep qs r)
-     end) todo qs.
-Proof.
-  intros H todo. induction todo as [|r rs IH]; intros qs I P; [reflexivity|].
-  unfold unused_refs. cbn [run snd].
-  assert (C : cond r qs) by (apply H; [exact P|apply I; left; reflexivity]).
-  rewrite (step_unused r qs C), (step_pstep r qs C). fold (no_token qs r).
-  assert (E : snd (run rs (flatten (pstep qs r))) = unused_refs rs (flatten (pstep qs r))) by reflexivity.
-  rewrite E, IH.
-  - reflexivity.
-  - intros x Hx. apply I. right. exact Hx.
-  - apply partial_pstep; [apply I; left; reflexivity|exact P].
 Qed.
 
 (* ------------------------------------------------------------------ order independence *)
 Lemma separated_perm refs refs' ps :
-  (forall r, In r refs <-> In r refs') -> separated refs ps -> separated refs' ps.
+  Permutation refs refs' -> separated refs ps -> separated refs' ps.
 Proof.
-  intros I [N H]. split.
+  intros Pm [N [ND H]].
+  assert (I : forall r, In r refs' -> In r refs) by (intros r; apply Permutation_in, Permutation_sym, Pm).
+  split; [|split].
   - intros r Hr. apply N, I, Hr.
-  - intros qs r P Hr. apply H; [|apply I; exact Hr].
-    eapply partial_incl; [|exact P]. intros x Hx. apply I. exact Hx.
+  - eapply Permutation_NoDup; eassumption.
+  - intros D qs r Id Nr Hr P. apply (H D); [|exact Nr|apply I, Hr|exact P].
+    intros x Hx. apply I, Id, Hx.
 Qed.
 
 Lemma spec_perm refs refs' ps :
@@ -321,7 +307,7 @@ Proof.
   intros P S U.
   assert (I : forall r, In r refs <-> In r refs').
   { intros r. split; apply Permutation_in; [exact P|apply Permutation_sym; exact P]. }
-  rewrite (exact refs ps S), (exact refs' ps (separated_perm _ _ _ I S)). apply spec_perm; assumption.
+  rewrite (exact refs ps S), (exact refs' ps (separated_perm _ _ _ P S)). apply spec_perm; assumption.
 Qed.
 
 (* ------------------------------------------------------------------ soundness of the checkers *)
@@ -386,12 +372,38 @@ Proof.
     + apply in_map. exact IHP.
 Qed.
 
+Lemma dref_eqb_spec a b : dref_eqb a b = true <-> a = b.
+Proof.
+  destruct a as [a1 a2 a3 a4], b as [b1 b2 b3 b4]. unfold dref_eqb. cbn.
+  rewrite !andb_true_iff, !String.eqb_eq, Bool.eqb_true_iff. split.
+  - intros [[[-> ->] ->] ->]. reflexivity.
+  - intros E. injection E as -> -> -> ->. repeat split.
+Qed.
+
+Lemma nodupb_sound refs : nodupb refs = true -> NoDup refs.
+Proof.
+  induction refs as [|r rs IH]; cbn; intros H; constructor.
+  - apply andb_true_iff in H as [H _]. apply negb_true_iff in H. intros I.
+    assert (X : existsb (dref_eqb r) rs = true) by (apply existsb_exists; exists r; split; [exact I|apply dref_eqb_spec; reflexivity]).
+    congruence.
+  - apply IH. apply andb_true_iff in H as [_ H]. exact H.
+Qed.
+
+Lemma others_spec r refs x : In x refs -> x <> r -> In x (others r refs).
+Proof.
+  intros I Ne. apply filter_In. split; [exact I|]. apply negb_true_iff.
+  destruct (dref_eqb x r) eqn:E; [apply dref_eqb_spec in E; contradiction|reflexivity].
+Qed.
+
 Theorem separatedb_sound refs ps : separatedb refs ps = true -> separated refs ps.
 Proof.
-  unfold separatedb. rewrite andb_true_iff, !forallb_forall. intros [N H]. split.
+  unfold separatedb. rewrite !andb_true_iff, !forallb_forall. intros [[N ND] H]. split; [|split].
   - intros r Hr. apply nomixb_sound, N, Hr.
-  - intros qs r P Hr. apply condb_sound.
-    specialize (H qs (all_partials_complete _ _ _ P)). rewrite forallb_forall in H. apply H, Hr.
+  - apply nodupb_sound, ND.
+  - intros D qs r Id Nr Hr P. apply condb_sound.
+    specialize (H r Hr). rewrite forallb_forall in H. apply H.
+    apply all_partials_complete. eapply partial_incl; [|exact P].
+    intros x Hx. apply others_spec; [apply Id, Hx|]. intros ->. contradiction.
 Qed.
 
 Theorem unambiguousb_sound refs ps : unambiguousb refs ps = true -> unambiguous refs ps.
